@@ -454,6 +454,26 @@ theorem dumpCapped_total (contentLength : Int) (body : Bytes) : dumpCapped conte
     simp only [logPeek, List.length_take] at h ⊢; omega
   · intro h; cases h
 
+/-! ### media packets of an anonymous publisher (WebRTC inbound track) -/
+
+/-- **stripTWCCExtension**: under pion/rtp's contract (`GetExtension(id) != nil` only if an element
+with that id exists) `DelExtension` cannot fail, so the `panic(err)` is unreachable -/
+theorem stripTWCC_total (twccID : Nat) (p : RtpExt) (getNonNil : Bool)
+    (h : getNonNil = true → twccID ∈ p.ids) : stripTWCC twccID p getNonNil ≠ .panic := by
+  unfold stripTWCC
+  split
+  · intro h'; cases h'
+  · rename_i hg
+    simp only [Bool.or_eq_true, Bool.not_eq_true', not_or] at hg
+    have hm := h (by cases getNonNil <;> simp_all)
+    have : p.ids.contains twccID = true := by simpa using hm
+    simp only [this, Bool.not_true, Bool.false_eq_true, if_false]
+    split <;> (intro h'; cases h')
+
+/-- the guard matters: a packet that has an extension block but no TWCC element, treated as if
+`GetExtension` had answered non-nil (the seeded "fast path" `!pkt.Extension`), reaches the panic -/
+theorem stripTWCC_needs_guard : stripTWCC 3 ⟨true, 0xBEDE, [1]⟩ true = .panic := by decide
+
 /-! ### the scoped property -/
 
 /-- the modelled pre-authentication code never panics, whatever the client sends -/
@@ -472,12 +492,13 @@ theorem preauth_owned_code_total :
     (∀ n re, isValidPathName n re ≠ .panic) ∧
     (∀ p re a s d c f, playbackGet p re a s d c f ≠ .panic) ∧
     (∀ p re a c s e so eo, playbackList p re a c s e so eo ≠ .panic) ∧
+    (∀ id p g, (g = true → id ∈ p.ids) → stripTWCC id p g ≠ .panic) ∧
     (∀ b, (C32.readMsg b).r ≠ .panic ∧ (C32.readSubGroup b).r ≠ .panic) :=
   ⟨srt_total, srtConn_total, rtmpConn_total, rtspStrip_total, rtspStored_total, credentials_total,
    filterPath_total, hls_total,
    fun meth p q m1 m2 c h1 h2 => rtc_total meth p q m1 m2 c h1 h2, parseContentType_total,
    paramName_total, paginate_total, isValidPathName_total, playbackGet_total, playbackList_total,
-   moq_total⟩
+   stripTWCC_total, moq_total⟩
 
 /-! ### MoQ: what the session indexes after decoding -/
 
@@ -644,6 +665,40 @@ def expectedCloses : List (String × String × String) := [
   ("internal/servers/moq/session.go", "*session.onSubscribeTrack", "close(streamClosed)"),
   ("internal/servers/moq/session.go", "*session.onPublishCatalog", "close(s.publishReady)")
 ]
+
+/-- why a `panic(` in network-reachable code cannot fire -/
+inductive PanicCover
+  | stub                        -- unimplemented method of an adapter type, never called
+  | model (name : String)       -- unreachable by the totality theorem of the named model
+  | invariant (why : String)    -- local state invariant (read, not modelled)
+  | library (why : String)      -- depends on a third-party contract or a local (non-input) error
+
+def expectedPanics : List ((String × String × String) × PanicCover) := [
+  (("internal/protocols/hls/to_stream.go", "ToStream", "!pathConf.UseAbsoluteTimestamp ; !avail ; !avail => panic(\"should not happen\")"), .invariant "NTP state machine: PacketNTP/AbsoluteTime is available once the state is ntpStateAvailable; exhaustive type switch"),
+  (("internal/protocols/hls/to_stream.go", "ToStream", "!avail ; !avail ; avail ; err != nil => panic(\"should not happen\")"), .invariant "NTP state machine: PacketNTP/AbsoluteTime is available once the state is ntpStateAvailable; exhaustive type switch"),
+  (("internal/protocols/rtsp/to_stream.go", "ToStream", "!pathConf.UseAbsoluteTimestamp ; !avail ; !avail => panic(\"should not happen\")"), .invariant "NTP state machine: PacketNTP/AbsoluteTime is available once the state is ntpStateAvailable; exhaustive type switch"),
+  (("internal/protocols/udp/listener.go", "*Listener.Write", " => panic(\"unimplemented\")"), .stub),
+  (("internal/protocols/udp/listener.go", "*Listener.LocalAddr", " => panic(\"unimplemented\")"), .stub),
+  (("internal/protocols/udp/listener.go", "*Listener.RemoteAddr", " => panic(\"unimplemented\")"), .stub),
+  (("internal/protocols/udp/listener.go", "*Listener.SetDeadline", " => panic(\"unimplemented\")"), .stub),
+  (("internal/protocols/udp/listener.go", "*Listener.SetWriteDeadline", " => panic(\"unimplemented\")"), .stub),
+  (("internal/protocols/unix/listener.go", "*Listener.Write", " => panic(\"unimplemented\")"), .stub),
+  (("internal/protocols/unix/listener.go", "*Listener.LocalAddr", " => panic(\"unimplemented\")"), .stub),
+  (("internal/protocols/unix/listener.go", "*Listener.RemoteAddr", " => panic(\"unimplemented\")"), .stub),
+  (("internal/protocols/unix/listener.go", "*Listener.SetDeadline", " => panic(\"unimplemented\")"), .stub),
+  (("internal/protocols/unix/listener.go", "*Listener.SetWriteDeadline", " => panic(\"unimplemented\")"), .stub),
+  (("internal/protocols/webrtc/inbound_track.go", "*InboundTrack.stripTWCCExtension", "t.twccExtID == 0 || pkt.GetExtension(t.twccExtID) == nil ; err != nil => panic(err)"), .model "stripTWCC"),
+  (("internal/protocols/webrtc/inbound_track.go", "*InboundTrack.start", "val == 1 ; err != nil => panic(err)"), .library "local initialisation error (rtpreceiver.Initialize / crypto/rand), not input dependent"),
+  (("internal/protocols/webrtc/inbound_track.go", "*InboundTrack.start", "val == 1 ; err != nil ; err2 != nil ; err2 != nil => panic(err2)"), .library "rtcp.Unmarshal after pion/interceptor has already validated the packet (comment in the source) - NOT verified here"),
+  (("internal/protocols/webrtc/inbound_track.go", "*InboundTrack.start", "ok ; t.track.Kind() == webrtc.RTPCodecTypeVideo ; err2 != nil ; err != nil => panic(err)"), .library "rtcp.Unmarshal after pion/interceptor has already validated the packet (comment in the source) - NOT verified here"),
+  (("internal/protocols/webrtc/outbound_track.go", "*OutboundTrack.setup", "err != nil ; err != nil ; err2 != nil ; err2 != nil => panic(err2)"), .library "rtcp.Unmarshal after pion/interceptor has already validated the packet - NOT verified here"),
+  (("internal/protocols/webrtc/to_stream.go", "ToStream", "channels > 1 ; !pathConf.UseAbsoluteTimestamp ; !avail ; !avail => panic(\"should not happen\")"), .invariant "NTP state machine: PacketNTP/AbsoluteTime is available once the state is ntpStateAvailable; exhaustive type switch")
+]
+
+/-- every `panic(` of internal/protocols and internal/servers, with the guards that precede it, is one
+of the reviewed rows: a new panic, or a changed guard in front of one (e.g. the `GetExtension … == nil`
+guard of stripTWCCExtension), breaks the build -/
+theorem panics_inventory : Gen.C35.panics = expectedPanics.map (·.1) := rfl
 
 theorem makes_inventory : Gen.C35.makes = expectedMakes := rfl
 theorem closes_inventory : Gen.C35.closes = expectedCloses := rfl
